@@ -329,12 +329,18 @@ class Ctx:
         print('[%s %6.1fs]' % (self.prop, time.time() - self.t0), *a, flush=True)
 
     # ----- obligations
+    # which translators feed the theorems / models a property's check relies on (a TranslateError elsewhere leaves that Gen file at its last good
+    # state and is reported by the properties that do depend on it)
+    GEN_FOR = {'C01': ['gen_history', 'gen_calls', 'gen_regex'], 'C04': ['gen_history', 'gen_calls', 'gen_regex'], 'C06': ['gen_history', 'gen_calls', 'gen_regex'],
+               'C10': ['gen_history'], 'C11': ['gen_globals', 'gen_regex'], 'C19': ['gen_globals'], 'C17': []}
     def regen(self):
         errs, meta = regenerate()
         self.gen_meta = meta
+        relevant = self.GEN_FOR.get(self.prop, ['gen_regex'])
         for g, msg in errs:
             self.gen_errors.append((g, msg))
-            self.broken.append(('gen:' + g, msg))
+            if g in relevant: self.broken.append(('gen:' + g, msg))
+            else: self.notes.append('translator %s failed (not used by this property): %s' % (g, msg[:200]))
         self.gen_changed = gen_diff_vs_baseline()
         return not errs
     def prove(self):
